@@ -466,6 +466,16 @@ def run(ctx):
                    (["I = #%s#" % _a, "J = #%s#" % _b, "(I < J) == ((I - J) < (0 s))"], "I:1", "< agrees with the sign of I-J across offsets"),
                    (["I = #%s#" % _a, "J = #%s#" % _b, "(I >= J) == ((I - J) >= (0 s))"], "I:1", ">= agrees with the sign of I-J across offsets"),
                    (["I = #%s#" % _a, "J = #%s#" % _b, "(I != J) == (1 - (I == J))"], "I:1", "!= is the negation of == across offsets")]
+    # --- instants inside aggregates and generators
+    _items += [(["max({#2024-03-01#, #2024-01-01#, #2024-02-01#}) == #2024-03-01#"], "I:1", "max of instants is the latest"),
+               (["min({#2024-03-01#, #2024-01-01#, #2024-02-01#}) == #2024-01-01#"], "I:1", "min of instants is the earliest"),
+               (["zm = max({#2024-01-05#, #2024-03-01#, #2024-01-01#, #2024-02-01#})", "(#2024-03-01# <= zm) + (#2024-02-01# <= zm) + (#2024-01-05# <= zm)"], "I:3", "every element is <= the max"),
+               (["d = #2024-02-27#", "{day(t) : t in {d, d+1, d+2, d+3}}"], "A:[I:27;I:28;I:29;I:1]", "I+n through a generator"),
+               (["d = #2024-02-27#", "{day(d) : d in {d, d+1, d+2, d+3}}"], "A:[I:27;I:28;I:29;I:1]", "I+n through a generator that reuses the variable's name"),
+               (["{(#2024-01-31# + k) - #2024-01-31# : k in 0..3}"], lambda o: o.get("status") == 0 and (o.get("out") or "").count("86400") >= 1, "I+k days inside a comprehension body"),
+               (["{x km to m : x in 1..3}"], "A:[I:1000;I:2000;I:3000]", "a quantity node evaluated per element follows the element"),
+               (["zs = #2024-01-01T00:00:00#", "zq = #2024-01-02T00:00:00.000001# - zs", "(zs + zq) == #2024-01-02T00:00:00.000001#"], "I:1", "(I+q) with q = J-I of a day and a microsecond"),
+               (["#2024-01-01# + 86400.000001 s == #2024-01-02T00:00:00.000001#"], "I:1", "a float span of a day and a microsecond")]
     _items += [(["#2020-01-01T01:00:00.000001# - #2020-01-01#"], lambda o: o.get("value") in ("Q:X:%s|0,0,1,0,0,0,0,0" % (3600.000001).hex(),), "microseconds survive a difference of an hour"),
                (["I = #2020-01-01#", "q = 1 year + 1 ms", "round(((I+q)-I) to ms) == 31536000001"], "I:1", "(I+q)-I = q (to the microsecond) for a year plus a millisecond"),
                (["I = #2020-01-01#", "J = I + 365 d + 1 ms", "K = I + 365 d + 2 ms", "(J-I) < (K-I)"], "I:1", "differences a millisecond apart at a year's distance are ordered")]
